@@ -38,6 +38,8 @@ type c08Case struct {
 	FailIdx int         `json:"fail_idx,omitempty"`
 	Bound   int         `json:"bound,omitempty"`
 	FnPts   bool        `json:"fn_points,omitempty"` // function entries are scheduling points too
+	ShardN  int         `json:"shard_n,omitempty"`   // the tree is split over ShardN tasks by the index of the first deviation
+	ShardI  int         `json:"shard_i,omitempty"`
 	Choices []vrt.Point `json:"choices,omitempty"`
 }
 
@@ -510,6 +512,7 @@ func c08Sched(c *mc.Ctx, cs c08Case, single bool) {
 		Ctx:   c,
 		Opts:  vrt.Options{Sched: true, MaxSteps: 200000, FnPoints: cs.FnPts},
 		Bound: map[string]int{"sched": cs.Bound},
+		ShardN: cs.ShardN, ShardI: cs.ShardI,
 		Body:  func() any { return run(cs.Cpus) },
 	}
 	ex.Check = func(x *mc.Execution) {
@@ -625,7 +628,17 @@ func c08Tasks(tier string) []mc.Task {
 						continue
 					}
 					cs := c08Case{Kind: "sched", Seqs: seqs, Model: model, Cpus: cpus, Bound: b}
-					ts = append(ts, mc.Task{Name: fmt.Sprintf("sched#%s/cpus%d/bound%d", model, cpus, b), Run: func(c *mc.Ctx) { c08Sched(c, cs, false) }})
+					nsh := 1
+					if b >= 3 && cpus >= 2 {
+						nsh = 16 // the large trees are split over 16 tasks
+					}
+					for sh := 0; sh < nsh; sh++ {
+						css := cs
+						if nsh > 1 {
+							css.ShardN, css.ShardI = nsh, sh
+						}
+						ts = append(ts, mc.Task{Name: fmt.Sprintf("sched#%s/cpus%d/bound%d/shard%d", model, cpus, b, sh), Run: func(c *mc.Ctx) { c08Sched(c, css, false) }})
+					}
 				}
 			}
 		}
@@ -642,10 +655,18 @@ func c08Tasks(tier string) []mc.Task {
 	// replaces it is accumulated by the workers and must not depend on the schedule
 	for _, cpus := range []int{2, 3} {
 		cs := c08Case{Kind: "sched", Seqs: []string{"AAAA", "CCCA", "AACA"}, Model: "jc", Cpus: cpus, Bound: 2}
+		nsh := 1
 		if thorough {
 			cs.Bound = 3
+			nsh = 16
 		}
-		ts = append(ts, mc.Task{Name: fmt.Sprintf("sched#maxfill/cpus%d", cpus), Run: func(c *mc.Ctx) { c08Sched(c, cs, false) }})
+		for sh := 0; sh < nsh; sh++ {
+			css := cs
+			if nsh > 1 {
+				css.ShardN, css.ShardI = nsh, sh
+			}
+			ts = append(ts, mc.Task{Name: fmt.Sprintf("sched#maxfill/cpus%d/shard%d", cpus, sh), Run: func(c *mc.Ctx) { c08Sched(c, css, false) }})
+		}
 	}
 	// interleavings inside the workers: every function entry (>= 4 statements) of goalign is a scheduling
 	// point as well, one preemption: state shared through the heap or through package-level variables
@@ -692,10 +713,18 @@ func c08Tasks(tier string) []mc.Task {
 	for _, cpus := range []int{2, 3} {
 		for k := 0; k < 2; k++ {
 			cs := c08Case{Kind: "fault", Seqs: schedSeqs[0], Model: "k2p", Cpus: cpus, Bound: 2, FailAt: "dist-from", FailIdx: k}
+			nsh := 1
 			if thorough {
 				cs.Bound = 3
+				nsh = 16
 			}
-			ts = append(ts, mc.Task{Name: fmt.Sprintf("fault#distfrom%d/cpus%d", k, cpus), Run: func(c *mc.Ctx) { c08Sched(c, cs, false) }})
+			for sh := 0; sh < nsh; sh++ {
+				css := cs
+				if nsh > 1 {
+					css.ShardN, css.ShardI = nsh, sh
+				}
+				ts = append(ts, mc.Task{Name: fmt.Sprintf("fault#distfrom%d/cpus%d/shard%d", k, cpus, sh), Run: func(c *mc.Ctx) { c08Sched(c, css, false) }})
+			}
 		}
 	}
 	// fault with many pairs: a failure while the producer still has > capacity pairs to send
